@@ -58,6 +58,8 @@ def jobs(tier):
     for opt in OPTIONS:
         for mv in ("1",) if (tier == "quick" and opt not in ("web-seed", "comment")) else ("1", "3"):
             out.append(("route.%s.v%s" % (opt, mv), "job_route", dict(opt=opt, mv=mv)))
+    for mv in ("1", "3"):
+        out.append(("out-inside-content.v%s" % mv, "job_out_inside", dict(mv=mv)))
     import itertools
     for i, order in enumerate(itertools.permutations(["announce", "web-seed", "http-seed"])):
         out.append(("swallow.%s" % "-".join(o[0] for o in order), "job_swallow", dict(order=list(order), nvals=1 + i % 2)))
@@ -226,6 +228,46 @@ def _brief(meta):
             if k != "piece layers"}
 
 
+def job_out_inside(E, mv, _mutants=None):
+    """The output file lies inside the content directory: all routes must still
+    describe the same payload (the payload as it was when create started)."""
+    P = 16384
+    metas = {}
+    for route in ("keyword", "flag", "config"):
+        fs = AFS(cwd="/work")
+        s0 = E.int("s0", 1, 2 * P)
+        s1 = E.int("s1", 0, P)
+        fs.add("/data/name/a", ("f", 0), s0)
+        fs.add("/data/name/b", ("f", 1), s1)
+        fs.mkdirs("/cfg")
+        w = World(fs, mutants=_mutants)
+        try:
+            if route == "keyword":
+                T = w.mod("torrent")
+                kw = dict(path="/data/name", outfile="/data/name/name.torrent", meta_version=mv, progress=0, piece_length=14)
+                t = T.TorrentFile(**kw) if mv == "1" else T.TorrentAssembler(**kw)
+                o, m = t.write()
+            elif route == "flag":
+                m = w.mod("cli").execute(["create", "--prog", "0", "--meta-version", mv, "--piece-length", "14", "-o", "/data/name/name.torrent", "/data/name"]).meta
+            else:
+                fs.add_token("/cfg/t.ini", ("INI", {"config": {"out": "/data/name/name.torrent"}}))
+                m = w.mod("cli").execute(["create", "--prog", "0", "--meta-version", mv, "--piece-length", "14", "--config", "--config-path", "/cfg/t.ini", "/data/name"]).meta
+        except Unsupported:
+            raise
+        except SystemExit as ex:
+            E.fail("C20.out-inside.parser-accepts", str(ex))
+            return
+        except Exception as ex:  # noqa: BLE001
+            E.fail("C20.out-inside.no-exception", "%s route: %s: %s" % (route, type(ex).__name__, ex))
+            return
+        metas[route] = strip(m)
+    for route in ("flag", "config"):
+        E.check(ben_equal(metas[route], metas["keyword"], ordered=False), "C20.out-inside.%s-equals-keyword" % route,
+                "%s route gives %s, keyword route gives %s" % (route, _brief(metas[route]), _brief(metas["keyword"])))
+    for k_ in WITNESSES:
+        E.witnesses.setdefault(k_, True)
+
+
 def job_swallow(E, order, nvals, _mutants=None):
     """List-valued flags placed before the positional content path swallow it; the
     metafile must equal the one from the keyword route."""
@@ -286,6 +328,33 @@ def replay(params, model, notes, workdir, seed):
     old = os.getcwd()
     os.chdir(workdir)
     try:
+        if "opt" not in params and "order" not in params:
+            mv = params["mv"]
+            root = os.path.join(workdir, "payload", "name")
+            ms = {}
+            for route in ("keyword", "flag", "config"):
+                import shutil as _sh
+                _sh.rmtree(os.path.join(workdir, "payload"), ignore_errors=True)
+                refconc.write_file(os.path.join(root, "a"), refconc.content(("f", 0), int(model.get("s0", 1)), seed))
+                refconc.write_file(os.path.join(root, "b"), refconc.content(("f", 1), int(model.get("s1", 0)), seed))
+                outp = os.path.join(root, "name.torrent")
+                try:
+                    if route == "keyword":
+                        kw = dict(path=root, outfile=outp, meta_version=mv, progress=0, piece_length=14)
+                        with contextlib.redirect_stdout(io.StringIO()):
+                            t = T.TorrentFile(**kw) if mv == "1" else T.TorrentAssembler(**kw)
+                            t.write()
+                        ms[route] = norm(t.meta)
+                    elif route == "flag":
+                        ms[route] = norm(run_cli(["create", "--prog", "0", "--meta-version", mv, "--piece-length", "14", "-o", outp, root]).meta)
+                    else:
+                        ini = os.path.join(workdir, "o.ini")
+                        with open(ini, "w") as f:
+                            f.write("[config]\nout = %s\n" % outp)
+                        ms[route] = norm(run_cli(["create", "--prog", "0", "--meta-version", mv, "--piece-length", "14", "--config", "--config-path", ini, root]).meta)
+                except BaseException as ex:  # noqa: BLE001
+                    return ["C20.out-inside.no-exception: %r" % (ex,)]
+            return [("C20.out-inside.%s-equals-keyword" % r) for r in ("flag", "config") if ms[r] != ms["keyword"]]
         if "order" in params:
             nvals = params["nvals"]
             vals = {"announce": ["http://t/%d" % i for i in range(nvals)], "web-seed": ["http://w/%d" % i for i in range(nvals)],
@@ -313,6 +382,8 @@ def replay(params, model, notes, workdir, seed):
             value = "true" if int(model.get("v0.is[lower:true]", 0)) else ("false" if int(model.get("v0.is[lower:false]", 0)) else "some value")
             if inline:
                 value = "Disc 1 ; remastered #2"
+            if int(model.get("v0.isdigit", 0)):
+                value = "2024"
         elif kind == "flag":
             value = True
         else:
